@@ -455,7 +455,14 @@ impl Sys {
         }
     }
 
+    /// "k1s".."k3s": the public-key bytes of k1..k3 registered under another scheme number - a different signing
+    /// key as far as the registry is concerned (never used to sign: the bytes are no key of that scheme)
     fn key(&self, k: &str) -> KeyMat {
+        if let Some(base) = k.strip_suffix('s') {
+            let km = self.key(base);
+            let other = SCHEMES[(SCHEMES.iter().position(|x| *x == km.scheme).unwrap() + 1) % 3];
+            return KeyMat { scheme: other, ..km };
+        }
         let idx = match k {
             "k1" => 0,
             "k2" => 1,
@@ -787,7 +794,11 @@ fn drive_op(r: &mut StdRng, sys: &Sys, step: usize, untils: &mut std::collection
             mkop(kind, none, i, none, none, none, ts, none, 0, 0)
         }
         "rm_issuer" => mkop(kind, none, if !trusted.is_empty() && r.gen_bool(0.8) { *pick(r, &trusted) } else { i }, none, none, none, vec![], none, 0, 0),
-        "allow_key" | "remove_key" => mkop(kind, t, i, none, k, *pick(r, &["A", "A", "B"]), vec![], none, 0, 0),
+        "allow_key" | "remove_key" => {
+            // one in four: the same key bytes under another scheme number
+            let kk = if r.gen_ratio(1, 4) { format!("{k}s") } else { k.to_string() };
+            mkop(kind, t, i, none, &kk, *pick(r, &["A", "A", "B"]), vec![], none, 0, 0)
+        }
         "add_claim" => {
             let def = if r.gen_bool(0.6) {
                 none
